@@ -113,7 +113,10 @@ func corrC16(outDir string, seed uint64, tier string, replay string) *report {
 
 	cfgs := []b64cfg{}
 	for a := 0; a < 3; a++ {
-		for _, p := range []rune{-1, '=', '*'} {
+		for _, p := range []rune{-1, '=', '*', 0xE9} {
+			if p == 0xE9 && a != 0 {
+				continue // a padding byte >= 0x80 (allowed by WithPadding), with the crypt alphabet
+			}
 			for _, st := range []bool{false, true} {
 				cfgs = append(cfgs, b64cfg{a, p, st, 0})
 				if a == 0 {
@@ -180,7 +183,10 @@ func corrC16(outDir string, seed uint64, tier string, replay string) *report {
 						diff++
 					}
 				}
-				last := len(strings.TrimRight(canon, string(rune(maxRune(c.pad))))) - 1
+				last := len(canon) - 1
+				for last >= 0 && canon[last] == byte(maxRune(c.pad)) {
+					last--
+				}
 				if c.strict || diff != 1 || st[last] == canon[last] || len(out)%3 == 0 {
 					rep.fail(map[string]interface{}{"cfg": c.String(), "text": text}, canon, fmt.Sprintf("%x", out), "accepted text is not an encoding of the output")
 				}
@@ -188,10 +194,14 @@ func corrC16(outDir string, seed uint64, tier string, replay string) *report {
 		}
 		if kind == "badsym" {
 			// exactly one invalid byte at a known position, everything before it symbols/newlines
-			k := strings.IndexFunc(text, func(q rune) bool {
-				return q != '\n' && q != '\r' && q != c.pad && !strings.ContainsRune(b64Alphas[c.alpha], q)
-			})
-			if k >= 0 && !strings.ContainsRune(text[:k], maxRune(c.pad)) {
+			k := -1
+			for i := 0; i < len(text); i++ { // bytes, not characters: the padding byte may be >= 0x80
+				if q := text[i]; q != '\n' && q != '\r' && rune(q) != c.pad && strings.IndexByte(b64Alphas[c.alpha], q) < 0 {
+					k = i
+					break
+				}
+			}
+			if k >= 0 && strings.IndexByte(text[:k], byte(maxRune(c.pad))) < 0 {
 				if off == nil || *off != int64(k) {
 					rep.fail(map[string]interface{}{"cfg": c.String(), "text": text}, fmt.Sprintf("CorruptInputError(%d)", k), fmt.Sprint(err), "offending byte not located")
 				}
@@ -277,7 +287,7 @@ func corrC16(outDir string, seed uint64, tier string, replay string) *report {
 		}
 		class := ".z5" + "\n" + "@"
 		if c.pad >= 0 {
-			class += string(c.pad)
+			class += string([]byte{byte(c.pad)})
 		} else {
 			class += "="
 		}
@@ -346,7 +356,7 @@ func corrC16(outDir string, seed uint64, tier string, replay string) *report {
 			if p < 0 {
 				p = '='
 			}
-			doDec(c, t[:pos]+string(p)+t[pos:], toCoq, "straypad")
+			doDec(c, t[:pos]+string([]byte{byte(p)})+t[pos:], toCoq, "straypad")
 		case 2: // newline inserted
 			doDec(c, t[:pos]+"\n"+t[pos:], toCoq, "newline")
 			doDec(c, t[:pos]+"\r\n"+t[pos:]+"\n", toCoq, "newline")
@@ -396,6 +406,51 @@ func corrC16(outDir string, seed uint64, tier string, replay string) *report {
 							nl = strings.Repeat("\r\n", run/2)
 						}
 						doDec(c, t[:pos]+nl+t[pos:], pat == 0 && (run <= 3 || run == 8 || run == 9 || run >= 16), "newline_run")
+					}
+				}
+			}
+		}
+	}
+	// ---- families: several encodings derived from ONE parent (and from the exported hash.LittleEndianEncoding) must
+	// each behave like an encoding built on its own; deriving a sibling must not change the parent or the other siblings
+	{
+		type member struct {
+			e   *base64le.Encoding
+			cfg b64cfg
+		}
+		family := func(parent *base64le.Encoding, alpha int, parentPad rune) []member {
+			ms := []member{{parent, b64cfg{alpha, parentPad, false, 0}}}
+			ms = append(ms, member{parent.WithPadding('='), b64cfg{alpha, '=', false, 0}})
+			ms = append(ms, member{parent.Strict(), b64cfg{alpha, parentPad, true, 0}})
+			ms = append(ms, member{parent.WithPadding('*'), b64cfg{alpha, '*', false, 0}})
+			ms = append(ms, member{parent.WithPadding('=').WithPadding(base64le.NoPadding), b64cfg{alpha, -1, false, 0}})
+			ms = append(ms, member{parent.WithPadding('=').Strict(), b64cfg{alpha, '=', true, 0}})
+			return ms
+		}
+		var all []member
+		all = append(all, family(base64le.NewEncoding(alphaCrypt), 0, '=')...) // NewEncoding pads with '=' by default
+		all = append(all, family(base64le.NewEncoding(alphaCrypt).WithPadding(base64le.NoPadding), 0, -1)...)
+		all = append(all, family(crypthash.LittleEndianEncoding, 0, -1)...)
+		texts := []string{"", "AA", "AA==", "AA**", "AAA=", "AAA*", "AAAA", "AAAA====", "zz", "zz==", "zzz", "zzz=", "z", "AA=", "A=A=", "AAAAAA==", "AAAAAA**", "AAAAAAAz", "AA\n==", "AA=*"}
+		for i := 0; i < 40; i++ {
+			texts = append(texts, r.str(r.intn(13), "Az.=*\n"))
+		}
+		for round := 0; round < 2; round++ { // second round: after every member has been used
+			for _, m := range all {
+				ref := m.cfg.enc() // the same encoding built from scratch
+				for _, t := range texts {
+					o1, e1, p1 := decodeWatch(m.e, t)
+					o2, e2, p2 := decodeWatch(ref, t)
+					if !bytes.Equal(o1, o2) || fmt.Sprint(e1, p1) != fmt.Sprint(e2, p2) {
+						rep.fail(map[string]interface{}{"cfg": m.cfg.String(), "text": t, "how": "member of a family of encodings derived from one parent"},
+							fmt.Sprintf("%x %v (the same encoding built on its own)", o2, e2), fmt.Sprintf("%x %v %v", o1, e1, p1),
+							"an encoding derived from a shared parent decodes differently from the same encoding built on its own")
+					}
+					rep.bump("family_decodes")
+				}
+				for _, src := range [][]byte{{}, {1}, {1, 2}, {1, 2, 3}, {255, 254, 253, 252}} {
+					if a, b := m.e.EncodeToString(src), ref.EncodeToString(src); a != b {
+						rep.fail(map[string]interface{}{"cfg": m.cfg.String(), "src": fmt.Sprintf("%x", src)}, b, a, "an encoding derived from a shared parent encodes differently from the same encoding built on its own")
 					}
 				}
 			}
